@@ -30,6 +30,7 @@ type C04Node struct {
 	ArrP        [2]*C04Leaf         `valid:"exist"`
 	M           map[string]C04Leaf  `valid:"exist"`
 	MI          map[int]*C04Node    `valid:"exist"`
+	MU          map[uint64]C04Leaf  `valid:"exist"`
 	PP          **C04Leaf           `valid:"exist"`
 	Both        *C04Leaf            `valid:"required,exist"`
 	DecoyV      C04Leaf             // no marker: never validated
@@ -128,6 +129,9 @@ func c04Node(rng *rand.Rand, depth int) *C04Node {
 	}
 	if depth > 0 && rng.Intn(3) == 0 {
 		n.MI = map[int]*C04Node{-7: child(), 3: child()}
+	}
+	if rng.Intn(3) == 0 {
+		n.MU = map[uint64]C04Leaf{1 << 63: c04Leaf(rng), ^uint64(0): c04Leaf(rng), 5: c04Leaf(rng)}
 	}
 	if rng.Intn(2) == 0 {
 		p := c04LeafP(rng)
